@@ -5,6 +5,7 @@ handed in, so a case replays from (seed, index) and also from its serialised for
 """
 from __future__ import annotations
 
+import zlib
 import json
 import random
 
@@ -75,6 +76,11 @@ class Gen:
                 pool = r.choice([[1, 2, 3], ["a", "b", "3"], ["3", 3, "x"], ["null", "1"], [0, "0"]])
                 vals = r.sample(pool, ri(r, 1, len(pool)))
             name = r.choice(["Color", "Kind", "E"]) + str(cid)
+            # every fifth program tag: the value of each member is the NAME of the next one (UP = "DOWN", DOWN = "UP"): a member is
+            # found by its value, never by a name that happens to be spelled like it.  (Decided by a hash, not by `r`: the random
+            # stream of every generated program stays what it was.)
+            if mixin != "int" and len(vals) >= 2 and zlib.crc32(f"{tag}:{cid}".encode()) % 5 == 0:
+                vals = [f"m{(i + 1) % len(vals)}" for i in range(len(vals))]
             prog["classes"].append({"id": cid, "name": name, "qualname": name, "module": r.choice(mods), "kind": "enum",
                                     "mixin": mixin, "members": [[f"m{i}", v] for i, v in enumerate(vals)],
                                     "fields": [], "required": [], "defaults": []})
